@@ -145,6 +145,40 @@ class Suite:
             self.unmodelled += 1
 
 
+def probe_operators(ctx):
+    """`s | x` with a right operand that is not a schema: DeclarationError (as schema.any(s, x) raises), never another
+    exception and never a non-schema result; the receiver is unchanged.  (`d + x` raising TypeError is pinned by the
+    existing tests and left alone.)"""
+    from d42.declaration import DeclarationError
+    n = 0
+    recv = ["schema.none", "schema.bool", "schema.int.min(1)", "schema.float(1.5)", "schema.str.len(2)", "schema.list(schema.int)",
+            "schema.dict({'a': schema.int})", "schema.any", "schema.any(schema.int, schema.str)", "schema.bytes", "schema.uuid4",
+            "schema.datetime", "schema.date", "schema.alias('A', schema.int)"]
+    operands = ["5", "'x'", "None", "[]", "{}", "1.5", "...", "object()", "True", "b'x'", "(schema.int,)", "[schema.int]", "int", "Nil", "2**70"]
+    for rs in recv:
+        s = ds.ev(rs)
+        before = repr(s)
+        for xs in operands:
+            x = eval(xs, dict(ds.NS, object=object, int=int))
+            n += 1
+            try:
+                out = ("ok", s | x)
+            except DeclarationError:
+                out = ("decl", None)
+            except Exception as e:  # noqa
+                out = ("raise", e)
+            rp = {"kind": "input", "chain": f"{rs} | {xs}", "expected": "DeclarationError"}
+            if out[0] == "raise":
+                rp["observed"] = repr(out[1])
+                ctx.violation(f"declaration call lets {type(out[1]).__name__} escape: {rs} | {xs}", rp)
+            elif out[0] == "ok":
+                rp["observed"] = repr(out[1])[:200]
+                ctx.violation(f"`|` with an operand that is not a schema returned something: {rs} | {xs}", rp)
+            if repr(s) != before:
+                ctx.violation(f"`|` changed its receiver: {rs} | {xs}", rp)
+    return n
+
+
 def run(ctx):
     ds.check_environment()
     ds.extra_known(ctx)
@@ -157,6 +191,7 @@ def run(ctx):
     # interactions of three or four refinements over a focused universe (exhaustive)
     for kind_name, (ops, d) in ds.FOCUS.items():
         st.tree(kind_name, d, ops=ops)
+    operator_probes = probe_operators(ctx)
     terms = list(st.cases)
     bad = common.eval_cases(ctx.workdir, "c10", terms, "dcase", "dcase_ok", extra_requires=ds.REQUIRES)
     for i in bad[:10]:
